@@ -220,22 +220,29 @@ def rule_xport(m):
                         # membership of the neighbour in the same set
                         mem = False
                         extra = f.region(ad['i']) - f.region(inner[0]['loopvarstmt'])
-                        for dep in extra:
-                            t = tt.t(f.branch_atom(dep[0]))
-                            if t[0] == 'bin' and t[1] == '!=' and dep[1] == 0 and t[2][0] == 'mcall' and \
+                        from .rules_pair import true_atoms, Ctx as _PCtx
+                        pctx = _PCtx(m, f)
+                        a = [pctx.unconst(x) for x in a]
+
+                        def is_membership(t):
+                            if t[0] == 'bin' and t[1] == '!=' and t[2][0] == 'mcall' and \
                                     t[2][1].endswith('::find') and t[2][2] == S and t[2][3] == (j,) and \
                                     t[3][0] == 'mcall' and t[3][1].endswith('::end') and t[3][2] == S:
-                                mem = True
-                            elif t[0] in ('bin', 'conv', 'cast', 'mcall'):
-                                tc = t
-                                while tc[0] in ('conv', 'cast'):
-                                    tc = tc[2]
-                                if tc[0] == 'bin' and tc[1] in ('!=', '>') and tc[3] == ('int', 0):
-                                    tc = tc[2]
-                                if tc[0] == 'mcall' and tc[1].split('::')[-1] in ('count', 'contains') and tc[2] == S and \
-                                        tc[3] == (j,) and dep[1] == 0:
-                                    mem = True
-                        if not mem or len(extra) != 1:
+                                return True
+                            tc = t
+                            while tc[0] in ('conv', 'cast'):
+                                tc = tc[2]
+                            if tc[0] == 'bin' and tc[1] in ('!=', '>') and strip_cast(tc[3]) == ('int', 0):
+                                tc = tc[2]
+                            elif tc[0] == 'bin' and tc[1] in ('>=', '==') and strip_cast(tc[3]) == ('int', 1):
+                                tc = tc[2]
+                            return tc[0] == 'mcall' and tc[1].split('::')[-1] in ('count', 'contains') and tc[2] == S and \
+                                tc[3] == (j,)
+                        atoms = []
+                        for dep in extra:
+                            atoms.extend(true_atoms(tt.t(f.branch_atom(dep[0])), dep[1] == 0))
+                        mem = bool(atoms) and all(is_membership(t) for t in atoms)
+                        if not mem:
                             why = 'the insertion is not guarded by exactly the membership of the neighbour in the vertex set'
                         lab_ok = len(a) >= 3 and a[2][0] == 'mcall' and a[2][1].endswith('::getEdgeLabel') and a[2][2] == g and \
                             a[2][3][:2] == (i, j)
@@ -289,6 +296,8 @@ def rule_xport(m):
                                     asg = [tt.t(x['i']) for x in f.nodes if x['i'] in body and x['k'] in ('BinaryOperator', 'CXXOperatorCallExpr')
                                            and tt.t(x['i'])[0] == 'bin' and tt.t(x['i'])[1] == '=']
                                     for t in asg:
+                                        if t[2] == ('idx', mp, v) and t[3][0] == 'un' and t[3][1] == '++' and t[3][2] and t[3][3][0] == 'var':
+                                            t = (t[0], t[1], t[2], t[3][3])      # map[v] = counter++
                                         if t[2] == ('idx', mp, v) and t[3][0] == 'var':
                                             c = t[3]
                                             defs = var_defs(f, c[1])
